@@ -18,7 +18,7 @@ from fakes import c06_mem
 
 ID = 'C06'
 PROPERTY_FILE = 'C06/Property.v'
-LEVEL = 'other'
+LEVEL = 'proof'
 ALLOWED_AXIOMS = ()
 TRUSTED_BASE = [
     'C06/Model.v is hand-written from cflib/crazyflie/mem/__init__.py (_ReadRequest, _WriteRequest, Memory.read/write, '
@@ -248,6 +248,23 @@ def tie(ctx):
         for k in range(n // 25 + 2):
             evs += [['D', k], ['D', k]]
         cases.append({'plan': [], 'events': evs, 'windows': windows_of(evs)})
+    # complete small scope: every schedule of `depth` deliveries over the first `width` replies (multiplicities,
+    # delays, reorderings) after a fixed set of requests: two queued writes (the second flushing or not) and a read
+    # of one memory, starting at the same address so that stale acknowledgements match
+    depth, width = (5, 5) if ctx.thorough else (4, 4)
+    import itertools
+    n_enum = 0
+    for fl in (False, True):
+        base = [['W', 1, 0, [(3 * j + 1) % 256 for j in range(30)], False], ['W', 1, 0, [9, 8, 7], fl], ['R', 1, 0, 25]]
+        for sched in itertools.product(range(width), repeat=depth):
+            evs = base + [['D', k] for k in sched]
+            cases.append({'plan': [], 'events': evs, 'windows': [[1, 0, 34]]})
+            n_enum += 1
+    # link drop after every k-th reply of a transfer, then the same requests again
+    for (op, m) in ((['R', 1, 3, 45], 3), (['W', 2, 5, [(7 * j) % 256 for j in range(60)], False], 3)):
+        for k in range(m + 1):
+            evs = [op] + [['D', j] for j in range(k)] + [['X'], op] + [['D', j] for j in range(k + m + 1)]
+            cases.append({'plan': [], 'events': evs, 'windows': windows_of(evs)})
     terms, exp, anomalies = [], [], []
     for c in cases:
         ints, rig = run_impl(c)
@@ -274,7 +291,7 @@ def tie(ctx):
         dis.append({'what': 'total disagreeing histories', 'count': nbad})
     keys = set()
     dist = {'events': 0, 'reads': 0, 'writes': 0, 'flushing_writes': 0, 'deliveries': 0, 'duplicate_deliveries': 0,
-            'stale_deliveries': 0, 'forged_packets': 0, 'disconnects': 0, 'refused_requests': 0, 'max_len': 0}
+            'forged_packets': 0, 'disconnects': 0, 'refusal_slots_in_plans': 0, 'max_len': 0}
     for c, e in zip(cases, exp):
         if nontrivial(c):
             keys.add(runner_sha(c))
@@ -288,11 +305,11 @@ def tie(ctx):
         dist['duplicate_deliveries'] += len(ds) - len(set(ds))
         dist['forged_packets'] += sum(1 for x in evs if x[0] == 'P')
         dist['disconnects'] += sum(1 for x in evs if x[0] == 'X')
-        dist['refused_requests'] += sum(1 for s in c['plan'] if s)
+        dist['refusal_slots_in_plans'] += sum(1 for s in c['plan'] if s)
         dist['max_len'] = max([dist['max_len']] + [x[3] for x in evs if x[0] == 'R'] + [len(x[3]) for x in evs if x[0] == 'W'])
         # stale deliveries: marker 9 followed by freshness flag 0 on a 'D' event
-        pos = [k for k, v in enumerate(e) if v == 9]
-    dist['stale_deliveries'] = sum(_count_stale(c) for c in cases[:300])
+    dist['stale_deliveries_in_first_300'] = sum(_count_stale(c) for c in cases[:300])
+    dist['enumerated_schedules'] = n_enum
     return {
         'evaluations': len(cases),
         'distinct_nontrivial': len(keys),
@@ -302,6 +319,7 @@ def tie(ctx):
         'samples': [{'plan': c['plan'][:8], 'events': c['events'][:10]} for c in cases[len(cases) // 2:len(cases) // 2 + 3]],
         'distribution': dist,
         'exhaustive': False,
+        'small_scope_schedules': n_enum,
         'disagreements': dis,
     }
 
@@ -430,7 +448,10 @@ class Judge:
                           'memory: a request record was left behind', True, False, k)
         if rig.locked():
             cls = 'lock_left_held'
+            # a write acknowledgement (replayed or forged) for a memory whose queue is empty
             if ev[0] == 'D' and 0 <= ev[1] < len(rig.log) and rig.log[ev[1]][0] == 2 and not self.wq.get(rig.log[ev[1]][1][0]):
+                cls = 'dup_final_write_ack'
+            if ev[0] == 'P' and ev[1] == 2 and ev[2] and not self.wq.get(ev[2][0]):
                 cls = 'dup_final_write_ack'
             self.flag(cls, 'the write lock is still held after the event', 'free', 'held', k)
         if 7 in _markers(body) and ev[0] != 'P':
@@ -737,6 +758,33 @@ def high_level_cases():
         if len(wrote) != 1 or rig.image != want:
             fails.append({'class': 'deck_memory_write', 'case': {'hl': 'deck_write', 'base': base, 'addr': addr, 'size': size},
                           'expected': 'image == data', 'observed': [wrote, len(rig.image)]})
+    # progress callback of a write: called with non-decreasing percentages ending at 100, for every length
+    # (0 included); the write completes and the lock is free afterwards
+    for size in (0, 1, 25, 26, 60):
+        rig = c06_mem.Rig([])
+        rig.cur = []
+        mobj = rig.new_mem(3)
+        prog = []
+        n += 1
+        observed = None
+        try:
+            rig.mem.write(mobj, 7, bytearray((j * 5) % 256 for j in range(size)), progress_cb=lambda msg, p: prog.append(p))
+            k = 0
+            while k < len(rig.log) and k < 20:
+                rig.cur = []
+                rig.deliver(rig.log[k][0], rig.log[k][1])
+                k += 1
+        except BaseException as e:
+            observed = 'raised ' + type(e).__name__
+        done = [x[1][0] for x in rig.notes]
+        if observed is None and (done != ['wok'] or rig.locked() or prog != sorted(prog) or prog[-1:] != [100]):
+            observed = {'notifications': done, 'lock_held': rig.locked(), 'progress': prog}
+        if observed is not None or rig.locked():
+            cls = 'zero_length_write_progress_cb' if size == 0 else 'write_progress_cb'
+            fails.append({'class': cls, 'case': {'hl': 'write_progress', 'size': size},
+                          'expected': 'write completes, progress ends at 100, lock free',
+                          'observed': [observed, {'lock_held': rig.locked()}],
+                          'detail': 'Memory.write(mem, 7, %d bytes, progress_cb=f) followed by its acknowledgements' % size})
     return n, fails
 
 
